@@ -3,6 +3,7 @@ package engine
 import (
 	"fmt"
 	"go/types"
+	"os"
 	"sort"
 	"strings"
 	"sync"
@@ -29,9 +30,13 @@ type Config struct {
 	Trace       bool
 	ReplayVals  map[string]uint64 // concrete replay: nd values by name
 	ReplayDecs  []int
+	ReplayKinds []string
 	StopAtFirst bool
 	FallbackMs  int // one-shot cvc5 integer-encoding fallback limit
 	MaxWallS    int // wall-clock bound for the whole harness
+	Thorough    bool
+	FullSchedules bool // explore every scheduling choice (no delay bound)
+	AllYields     bool // preemption points also inside library code loaded from source
 }
 
 func (c *Config) defaults() {
@@ -136,6 +141,8 @@ type Machine struct {
 
 	lastPanicStack string
 	fb             FallbackStats
+	model          map[string]uint64 // a model of the current path condition, or nil
+	replayPos      int
 }
 
 type pathResult struct {
@@ -188,20 +195,37 @@ func (m *Machine) branch(c *Term, kind string) bool {
 		b := m.prefix[i].c == 0
 		m.decs = append(m.decs, decision{kind, 2, m.prefix[i].c, m.prefix[i].v})
 		m.addPC(c, b)
+		if m.model != nil && (m.ts.Eval(c, m.model) == 1) != b {
+			m.model = nil // no longer a model of the path condition
+		}
 		return b
 	}
-	// new decision
-	vt := m.check(c)
-	if vt == Unknown {
-		panic(engineAbort{abortSolver, "solver unknown on branch feasibility"})
-	}
-	var vf Verdict
-	if vt == Unsat {
-		vf = Sat // pc is satisfiable, so the other side must be
-	} else {
-		vf = m.check(m.ts.BNot(c))
-		if vf == Unknown {
+	// new decision. A model of the current path condition (kept from the last
+	// sat answer) decides one side for free.
+	var vt, vf Verdict
+	if m.model != nil {
+		if m.ts.Eval(c, m.model) == 1 {
+			vt = Sat
+			vf = m.checkRefresh(m.ts.BNot(c), false)
+		} else {
+			vf = Sat
+			vt = m.checkRefresh(c, true) // we will take this side if sat: refresh model
+		}
+		if vt == Unknown || vf == Unknown {
 			panic(engineAbort{abortSolver, "solver unknown on branch feasibility"})
+		}
+	} else {
+		vt = m.checkRefresh(c, true)
+		if vt == Unknown {
+			panic(engineAbort{abortSolver, "solver unknown on branch feasibility"})
+		}
+		if vt == Unsat {
+			vf = Sat // pc is satisfiable, so the other side must be
+		} else {
+			vf = m.check(m.ts.BNot(c))
+			if vf == Unknown {
+				panic(engineAbort{abortSolver, "solver unknown on branch feasibility"})
+			}
 		}
 	}
 	if vt == Sat && vf == Sat {
@@ -256,9 +280,16 @@ func (m *Machine) choose(n int, kind string) int {
 		panic(engineAbort{abortBudget, fmt.Sprintf("decision bound %d exceeded", m.cfg.MaxDecs)})
 	}
 	if m.cfg.ReplayVals != nil {
+		// follow the recorded choices, matched by kind (branch decisions are
+		// re-evaluated from the values and may be positioned differently)
 		k := 0
-		if i < len(m.cfg.ReplayDecs) {
-			k = m.cfg.ReplayDecs[i]
+		for m.replayPos < len(m.cfg.ReplayDecs) {
+			p := m.replayPos
+			m.replayPos++
+			if p < len(m.cfg.ReplayKinds) && m.cfg.ReplayKinds[p] == kind {
+				k = m.cfg.ReplayDecs[p]
+				break
+			}
 		}
 		if k >= n {
 			k = 0
@@ -337,10 +368,9 @@ func (m *Machine) freshVar(w uint8, tag string) *Term {
 	}
 	t := m.ts.Var(w, name)
 	m.ndVars = append(m.ndVars, ndVar{name, t})
-	if m.cfg.ReplayVals != nil {
-		// concrete replay: substitute the model value
-		return m.ts.BV(w, m.cfg.ReplayVals[name])
-	}
+	// Under concrete replay the variable stays symbolic and every decision is
+	// evaluated under the recorded values, so that decision positions line up
+	// with the recorded run.
 	return t
 }
 
@@ -361,14 +391,19 @@ func (m *Machine) assume(c *Term) {
 		// replaying: feasibility known
 		m.pc = append(m.pc, c)
 		m.solver.Assert(c)
+		if m.model != nil && m.ts.Eval(c, m.model) != 1 {
+			m.model = nil
+		}
 		return
 	}
-	v := m.check(c)
-	switch v {
-	case Unsat:
-		panic(engineAbort{abortInfeasible, "assumption infeasible"})
-	case Unknown:
-		panic(engineAbort{abortSolver, "solver unknown on assume"})
+	if m.model == nil || m.ts.Eval(c, m.model) != 1 {
+		v := m.checkRefresh(c, true)
+		switch v {
+		case Unsat:
+			panic(engineAbort{abortInfeasible, "assumption infeasible"})
+		case Unknown:
+			panic(engineAbort{abortSolver, "solver unknown on assume"})
+		}
 	}
 	m.pc = append(m.pc, c)
 	m.solver.Assert(c)
@@ -649,14 +684,35 @@ func (p *Program) Explore(cfg Config) *Result {
 					res.Samples = append(res.Samples, s)
 				}
 				if cfg.Trace {
-					fmt.Printf("  path %v -> %s (steps %d)\n", prefix, outcome, m.steps)
+					var ks []string
+					for _, d := range m.decs {
+						ks = append(ks, fmt.Sprintf("%s=%d/%d", d.kind, d.choice, d.n))
+					}
+					fmt.Printf("  path %s -> %s (steps %d)\n", strings.Join(ks, " "), outcome, m.steps)
 				}
 				cond.Broadcast()
 				mu.Unlock()
 			}
 		}()
 	}
+	progDone := make(chan struct{})
+	go func() {
+		tk := time.NewTicker(20 * time.Second)
+		defer tk.Stop()
+		for {
+			select {
+			case <-tk.C:
+				mu.Lock()
+				fmt.Fprintf(os.Stderr, "    ... %s: %d paths done, frontier %d, violations %d, %.0fs\n",
+					cfg.Harness[strings.LastIndex(cfg.Harness, ".")+1:], res.Paths, len(frontier), len(res.Violations), time.Since(t0).Seconds())
+				mu.Unlock()
+			case <-progDone:
+				return
+			}
+		}
+	}()
 	wg.Wait()
+	close(progDone)
 	res.Wall = time.Since(t0).Seconds()
 	return res
 }
@@ -669,6 +725,7 @@ func (p *Program) runPath(cfg *Config, fn *ssa.Function, prefix []pdec, solver *
 		ndCount: map[string]int{}, covers: map[string]bool{}, knownHit: map[string]bool{},
 		result: make(chan pathResult, 1), mutexes: map[*value]*mutexState{},
 		side: map[any]any{}, funcsSeen: map[*ssa.Function]*fnInfo{},
+		model: map[string]uint64{},
 	}
 	m.runtimeErrorT = p.runtimeErrorT
 	solver.Push()
